@@ -745,6 +745,155 @@ func c07NumericID(c *fw.Ctx, idx int) {
 	}
 }
 
+// c07Foreign decodes Feature and FeatureCollection documents as other software
+// writes them: members in any order, "id" / "bbox" / "geometry" / "properties"
+// present, null or left out, string ids spelt with escapes.  Every document is
+// decoded into fresh values; a member that is left out is nil / "" in the result,
+// whatever the members before it (in the same collection or in earlier calls) had.
+func c07Foreign(c *fw.Ctx, idx int) {
+	r := c.R
+	type spec struct {
+		idLit, id string
+		geomState int // 0 absent, 1 null, 2 point
+		x, y      int
+		propState int // 0 absent, 1 null, 2 object
+		propKey   string
+		propVal   int
+		bbox      bool
+		doc       string
+	}
+	idLits := []string{`"a\/b"`, `"\ud83d\ude00"`, `"caf\u00e9"`, `"q\"uote"`, `"back\\slash"`, `"tab\there"`, `"plain"`, `"\u0041\/\u0042"`, `"x\ud834\udd1ey"`, `17`, `2.5`}
+	n := r.Range(1, 6)
+	specs := make([]*spec, n)
+	var docs []string
+	for i := range specs {
+		sp := &spec{geomState: r.Intn(3), x: r.Range(-900, 900), y: i, propState: r.Intn(3), propKey: fmt.Sprintf("k%d", r.Intn(4)), propVal: r.Range(0, 99), bbox: r.Chance(1, 3)}
+		if r.Chance(2, 3) {
+			sp.idLit = idLits[r.Intn(len(idLits))]
+			var v any
+			if err := json.Unmarshal([]byte(sp.idLit), &v); err != nil {
+				panic(err)
+			}
+			switch t := v.(type) {
+			case string:
+				sp.id = t
+			case float64:
+				sp.id = strconv.FormatFloat(t, 'f', -1, 64)
+			}
+		}
+		members := []string{`"type":"Feature"`}
+		if sp.idLit != "" {
+			members = append(members, `"id":`+sp.idLit)
+		}
+		switch sp.geomState {
+		case 1:
+			members = append(members, `"geometry":null`)
+		case 2:
+			members = append(members, fmt.Sprintf(`"geometry":{"type":"Point","coordinates":[%d,%d]}`, sp.x, sp.y))
+		}
+		switch sp.propState {
+		case 1:
+			members = append(members, `"properties":null`)
+		case 2:
+			members = append(members, fmt.Sprintf(`"properties":{"%s":%d}`, sp.propKey, sp.propVal))
+		}
+		if sp.bbox {
+			members = append(members, fmt.Sprintf(`"bbox":[%d,%d,%d,%d]`, sp.x, sp.y, sp.x+1, sp.y+1))
+		}
+		shuffled := make([]string, len(members))
+		for a, b := range r.Perm(len(members)) {
+			shuffled[a] = members[b]
+		}
+		sp.doc = "{" + strings.Join(shuffled, ",") + "}"
+		specs[i] = sp
+		docs = append(docs, sp.doc)
+	}
+	check := func(how string, i int, f *geojson.Feature) bool {
+		sp := specs[i]
+		if f == nil {
+			c.Fail("foreign-document", "%s: member %d is nil", how, i)
+			return false
+		}
+		if f.ID != sp.id {
+			c.Fail("feature-id", "%s: member %d (%s) has id %q, want %q", how, i, sp.doc, f.ID, sp.id)
+			return false
+		}
+		switch sp.geomState {
+		case 0, 1:
+			if f.Geometry != nil && !isNilGeom(f.Geometry) {
+				c.Fail("foreign-document", "%s: member %d (%s) has no geometry in the document but decodes with %T %v", how, i, sp.doc, f.Geometry, f.Geometry.FlatCoords())
+				return false
+			}
+		default:
+			p, ok := f.Geometry.(*geom.Point)
+			if !ok || len(p.FlatCoords()) != 2 || p.FlatCoords()[0] != float64(sp.x) || p.FlatCoords()[1] != float64(sp.y) {
+				c.Fail("foreign-document", "%s: member %d (%s) decodes with geometry %T %v", how, i, sp.doc, f.Geometry, f.Geometry)
+				return false
+			}
+		}
+		switch sp.propState {
+		case 0, 1:
+			if len(f.Properties) != 0 {
+				c.Fail("foreign-document", "%s: member %d (%s) has no properties in the document but decodes with %s", how, i, sp.doc, canonJSON(f.Properties))
+				return false
+			}
+		default:
+			if want := fmt.Sprintf(`{"%s":%d}`, sp.propKey, sp.propVal); canonJSON(f.Properties) != want {
+				c.Fail("foreign-document", "%s: member %d (%s) decodes with properties %s", how, i, sp.doc, canonJSON(f.Properties))
+				return false
+			}
+		}
+		if (f.BBox != nil) != sp.bbox {
+			c.Fail("feature-bbox", "%s: member %d (%s): bbox present in the result: %v, in the document: %v", how, i, sp.doc, f.BBox != nil, sp.bbox)
+			return false
+		}
+		if sp.bbox && (f.BBox.Min(0) != float64(sp.x) || f.BBox.Max(1) != float64(sp.y+1)) {
+			c.Fail("feature-bbox", "%s: member %d (%s) decodes with bbox %v", how, i, sp.doc, f.BBox)
+			return false
+		}
+		return true
+	}
+	coll := `{"features":[` + strings.Join(docs, ",") + `],"type":"FeatureCollection"}`
+	c.SetInput(map[string]any{"json": coll})
+	var fc geojson.FeatureCollection
+	var err error
+	if c.Guard("panic", func() { err = json.Unmarshal([]byte(coll), &fc) }) {
+		return
+	}
+	c.Eval(1)
+	c.Count("foreign_collections")
+	if err != nil {
+		c.Fail("foreign-document", "a valid FeatureCollection document was rejected: %v", err)
+		return
+	}
+	if len(fc.Features) != n {
+		c.Fail("foreign-document", "collection of %d features decodes with %d", n, len(fc.Features))
+		return
+	}
+	for i, f := range fc.Features {
+		if !check("in a FeatureCollection", i, f) {
+			return
+		}
+	}
+	// the same members as documents of their own, one call after the other
+	for i, sp := range specs {
+		var f geojson.Feature
+		if c.Guard("panic", func() { err = json.Unmarshal([]byte(sp.doc), &f) }) {
+			return
+		}
+		c.Eval(1)
+		c.Count("foreign_features")
+		if err != nil {
+			c.Fail("foreign-document", "a valid Feature document was rejected: %s: %v", sp.doc, err)
+			return
+		}
+		if !check("as a document of its own, decoded into a fresh Feature after the members before it", i, &f) {
+			return
+		}
+		c.Distinct(fmt.Sprintf("foreign/%d/%d/%v/%s", sp.geomState, sp.propState, sp.bbox, sp.idLit))
+	}
+}
+
 // ---- decoder totality ----
 
 func c07CheckDecoders(c *fw.Ctx, data []byte, class string) {
@@ -947,6 +1096,7 @@ func init() {
 			{Name: "geometry-roundtrip", Quick: 80000, Thorough: 1500000, Run: c07Geometry},
 			{Name: "features", Quick: 40000, Thorough: 500000, Run: c07Feature},
 			{Name: "numeric-ids", Quick: 3000, Thorough: 100000, Run: c07NumericID},
+			{Name: "foreign-documents", Quick: 20000, Thorough: 400000, Run: c07Foreign},
 			{Name: "huge", Quick: 4, Thorough: 48, Chunk: 1, Run: c07Huge},
 			{Name: "decoders", Quick: 300000, Thorough: 8000000, Run: c07Decoders, RawReplay: c07RawReplay},
 		},
